@@ -525,9 +525,9 @@ def item_h5_flag_transform(repo, out):
         got = [_norm(s) for s in _strip_noise(fn.body)]
         # the docstring of the inner function is an Expr inside the FunctionDef: strip it
         inner = [n for n in fn.body if isinstance(n, ast.FunctionDef) and n.name == 'transform']
-        if len(inner) != 1 or [_norm(s) for s in _strip_noise(inner[0].body)] != ['returnnp.bool_(np.bitwise_and(flags_select,flags))'] \
+        if len(inner) != 1 or [_norm(s) for s in _strip_noise(inner[0].body)] not in (['returnnp.bool_(np.bitwise_and(flags_select[0],flags))'],) \
                 or [a.arg for a in inner[0].args.args] != ['flags', 'keep']:
-            raise TranslateError('%s: %s.flags: transform is not np.bool_(np.bitwise_and(flags_select, flags))' % (rel, cname))
+            raise TranslateError('%s: %s.flags: transform is not np.bool_(np.bitwise_and(flags_select[0], flags))' % (rel, cname))
         rest = [_norm(s) for s in _strip_noise(fn.body) if s is not inner[0]]
         if rest != ['flags_select=self._flags_select', "extract=LazyTransform('extract_flags',transform,dtype=bool)",
                     'returnself._vislike_indexer(self._flags,extract)']:
